@@ -151,9 +151,74 @@ def run(ctx):
             if pl != want or pl & (pl - 1):
                 ctx.violation("oracle-failure", "create on a %d-byte file recorded piece length %r, expected %d" % (sz, pl, want), dict(case, piece_length=pl))
         ctx.count("create_on_sparse_files", len(sizes))
+        create_on_trees(ctx, tmp)
     finally:
         shutil.rmtree(tmp, ignore_errors=True)
     return finish(ctx)
+
+
+def oracle_pick(sz):
+    k = (max(sz, 1) - 1).bit_length()
+    return min(max(1 << (k // 2 + 4), 16 * KIB), 16 * MIB)
+
+
+def create_on_trees(ctx, tmp):
+    """The size that decides is the size of the files that END UP in the torrent: files left out by --glob, junk names and
+    hidden files do not count, and a symlinked input counts with the size of what it points at (added after seeded
+    changes C15-4: filtered files counted; C15-5: a symlink root sized by the link itself)."""
+    def mk(path, size):
+        os.makedirs(os.path.dirname(path), exist_ok=True)
+        with open(path, "wb") as f:
+            f.truncate(size)
+
+    def picked(out):
+        try:
+            v, _ = lib.bdecode_strict(out)
+            return lib.dget(lib.dget(v, "info"), "piece length")
+        except Exception:
+            return None
+    trees = [
+        ("glob-excluded file crosses a step", [("d/keep.bin", 1 * MIB), ("d/skip.iso", 4 * MIB)], ["--glob", "!*.iso"], 1 * MIB),
+        ("junk file crosses a step", [("d/keep.bin", 2 * MIB), ("d/Thumbs.db", 1)], [], 2 * MIB),
+        ("hidden file crosses a step", [("d/keep.bin", 2 * MIB), ("d/.hidden", 5)], [], 2 * MIB),
+        ("everything included", [("d/a.bin", 2 * MIB), ("d/sub/b.bin", 6 * MIB + 1)], [], 8 * MIB + 1),
+        ("included junk and hidden", [("d/keep.bin", 2 * MIB), ("d/Thumbs.db", 1), ("d/.h", 1)], ["--include-junk", "--include-hidden"], 2 * MIB + 2),
+        ("two files exactly on the step", [("d/a.bin", 1 * MIB), ("d/b.bin", 1 * MIB)], [], 2 * MIB),
+    ]
+    for label, files, extra, counted in trees:
+        d = tempfile.mkdtemp(dir=tmp)
+        for rel, size in files:
+            mk(os.path.join(d, rel), size)
+        rc, out, err = ctx.imdl(["torrent", "create", "--input", "d", "--output", "-"] + extra, cwd=d, timeout=300)
+        ctx.cov["evaluations"] += 1
+        ctx.count("create_on_trees")
+        ctx.distinct(("create-tree", label))
+        pl, want = picked(out) if rc == 0 else None, oracle_pick(counted)
+        if pl != want:
+            ctx.violation("oracle-failure",
+                          "create on a tree (%s): the files in the torrent hold %d bytes, recorded piece length %r (rc %d), expected %d"
+                          % (label, counted, pl, rc, want),
+                          {"kind": "create-tree", "label": label, "files": files, "argv": ["imdl", "torrent", "create", "--input", "d", "--output", "-"] + extra,
+                           "counted_bytes": counted, "expected": want, "rc": rc, "stderr": err.decode("utf-8", "replace")[-300:]})
+        shutil.rmtree(d, ignore_errors=True)
+    for size in (2 * MIB, 4 * MIB, 8 * MIB + 1, 32 * MIB):
+        d = tempfile.mkdtemp(dir=tmp)
+        mk(os.path.join(d, "real", "payload.bin"), size)
+        os.symlink(os.path.join("real", "payload.bin"), os.path.join(d, "link.bin"))
+        os.symlink("real", os.path.join(d, "linkdir"))
+        for inp in ("link.bin", "linkdir"):
+            rc, out, err = ctx.imdl(["torrent", "create", "--follow-symlinks", "--input", inp, "--output", "-"], cwd=d, timeout=300)
+            ctx.cov["evaluations"] += 1
+            ctx.count("create_on_symlinked_input")
+            ctx.distinct(("create-symlink", inp, size))
+            pl, want = picked(out) if rc == 0 else None, oracle_pick(size)
+            if pl != want:
+                ctx.violation("oracle-failure",
+                              "create --follow-symlinks --input %s (a symlink to %d bytes): recorded piece length %r (rc %d), expected %d"
+                              % (inp, size, pl, rc, want),
+                              {"kind": "create-symlink", "input": inp, "size": size, "expected": want, "rc": rc,
+                               "stderr": err.decode("utf-8", "replace")[-300:]})
+        shutil.rmtree(d, ignore_errors=True)
 
 
 def book_rows():
